@@ -180,7 +180,27 @@ pub async fn transaction(cx: &mut Context<'_>, tx_id: &str) -> Result<Json, KipE
             format!("this Nexus has no transaction {tx_id:?}"),
         )
     })?;
-    Ok(entry(&row, None))
+    describe(cx, row, tx_id).await
+}
+
+/// One journal entry, with the changes this caller may know about (see
+/// [`visible_changes`]). A transaction whose every change is hidden is, to
+/// this caller, one that never happened: the answer is the same refusal an
+/// unknown id gets, so it cannot be told apart from one.
+async fn describe(
+    cx: &mut Context<'_>,
+    row: TransactionRow,
+    named: &str,
+) -> Result<Json, KipError> {
+    let mut rows = vec![row];
+    visible_changes(cx, &mut rows).await;
+    match rows.first() {
+        Some(row) => Ok(entry(row, None)),
+        None => Err(KipError::new(
+            KipErrorCode::TransactionUnknown,
+            format!("this Nexus has no transaction {named:?}"),
+        )),
+    }
 }
 
 /// `DESCRIBE TRANSACTION BY IDEMPOTENCY KEY` — the lost-response lookup (§80.4).
@@ -198,7 +218,7 @@ pub async fn transaction_by_key(cx: &mut Context<'_>, key: &str) -> Result<Json,
                 ),
             )
         })?;
-    Ok(entry(&row, None))
+    describe(cx, row, key).await
 }
 
 async fn journal(cx: &Context<'_>, filter: Filter) -> Result<Vec<TransactionRow>, KipError> {
